@@ -127,6 +127,9 @@ class Scenario:
                     descs[doc["uid"]] = doc.get("name")
                 if name == "event" and descs.get(doc["descriptor"]) == bad:
                     raise rec_mod.PlanErr("consumer cannot handle this event")
+                if bad.startswith("doc:") and name == bad[4:] and not descs.get("_raised"):
+                    descs["_raised"] = True          # fails once, on the first document of that kind (e.g. "doc:start")
+                    raise rec_mod.PlanErr(f"consumer cannot handle this {name} document")
             RE.subscribe(consumer)
         loop.is_run_step = lambda h: RE._task is not None and getattr(h._callback, "__self__", None) is RE._task
         loop.active = lambda: RE._task is not None and not RE._task.done()
